@@ -28,7 +28,8 @@ func run(e *harness.Env) {
 	e.Track = true
 	e.Rule = "case = (object tree or operator program, spelling policy, parser in {core.Parser.ParseObject, contentstream.Parser.Parse}); references only with the document parser. " +
 		"Spaces (each a full nested product unless said otherwise): leaf = every leaf of the full alphabet (3 keywords, 11 ints incl. the 2^31 and 2^63 limits and signed/zero-padded forms, " +
-		"16 exponent-free reals incl. the single-precision extremes, 41 byte strings, 32 names, 5 references) x " + fmt.Sprint(len(contexts)) + " contexts (top level, array/dict positions, nested, dict key) x follower {none,int,name,string} " +
+		"16 exponent-free reals incl. the single-precision extremes, plus the long-number list (coverage key long_numbers: boundary integers at 2^31/2^53/10^18/2^63, digit strings around 2^53 at 5 point positions, " +
+		"17th-digit rounding cases, and shortest / 18- / 19-digit spellings of float64 values from a fixed LCG table, which must read back bit for bit; quick: in 5 of the contexts), 41 byte strings, 32 names, 5 references) x " + fmt.Sprint(len(contexts)) + " contexts (top level, array/dict positions, nested, dict key) x follower {none,int,name,string} " +
 		"(quick: followers only at top level) x policy; tree = every tree of depth<=2 with <=2 members per container over 13 leaves x follower {none,int} x policy, thorough adds every tree of depth 3 over 6 leaves x policy; " +
 		"deep = depth-4 skeleton with 3 leaf slots over the full alphabet, all choice vectors with <=2 (quick) / <=3 (thorough) deviations from the plain case; " +
 		"prog = every operator program of length<=2 over the 70 operators of Annex A without BI/ID/EI x 3 operand variants x policy, thorough adds every program of length 3 x 1 rotating variant x 3 whitespace/comment policies x {lit,hexodd}; " +
@@ -40,7 +41,7 @@ func run(e *harness.Env) {
 	e.Assumptions = []string{
 		"the check's serializer emits only syntax that ISO 32000-1 7.2/7.3 declares legal, with the meaning the check expects",
 		"math/big decimal conversion is correct (expected values of number leaves)",
-		"reals are compared with relative tolerance 1e-6 (single precision), everything else exactly",
+		"short hand-written reals are compared with relative tolerance 1e-6 (single precision); long-number reals, the cross-parser comparison and everything else exactly",
 	}
 	only := os.Getenv("C06_ONLY") // development switch: run a single space
 	for _, sp := range []struct {
@@ -363,12 +364,28 @@ var contexts = []context{
 }
 
 func leafSpace(e *harness.Env) {
+	long := longNumberLeaves()
 	leaves := allLeaves()
+	nBasic := len(leaves)
+	have := map[string]bool{}
+	for _, l := range leaves {
+		have[l.id] = true
+	}
+	for _, l := range long {
+		if !have[l.id] {
+			leaves = append(leaves, l)
+		}
+	}
+	quickCtx := map[string]bool{"top": true, "arrR": true, "arr2": true, "dictV": true, "nestD": true}
+	e.Note("long_numbers", fmt.Sprintf("%d leaves with 15-19+ significant digits / boundary integers; LCG table: %s", len(leaves)-nBasic, lcgNote()))
 	follows := []string{"none", "int", "name", "str"}
-	for _, lf := range leaves {
+	for li, lf := range leaves {
 		for _, cx := range contexts {
 			if cx.only != 255 && cx.only != lf.k {
 				continue
+			}
+			if li >= nBasic && !e.Thorough() && !quickCtx[cx.name] {
+				continue // quick: the long-number leaves in 5 of the contexts
 			}
 			t := cx.build(lf)
 			f := treeStats(t)
@@ -631,6 +648,7 @@ func deepSpace(e *harness.Env) {
 		bound = 3
 	}
 	leaves := append([]*node{nInt("7")}, allLeaves()...)
+	leaves = append(leaves, exactReal("231.33300483951646"), exactReal("-.9007199254740993"), exactReal("+900719925474099.3"), nInt("9007199254740993"), nInt("-999999999999999999"))
 	ids := make([]string, len(leaves))
 	for i, l := range leaves {
 		ids[i] = l.id
